@@ -19,7 +19,9 @@ META = dict(
              'the two-layer profile is re-computed in rationals in log10 space (interpolation over ln P with numpy\'s '
              'treatment of repeated nodes, moving average of odd width, splice); its index arithmetic (closest layer, '
              'transition ends, window width) is replicated in the harness; ln and log10 of the inputs are taken in '
-             'Python'],
+             'Python',
+             'power-law profiles with a tabulated profile type: the coefficient table is replicated in the harness '
+             '(POWER_TABLE); what is compared is which coefficients come from the table and which from the arguments'],
     modelled=['TaurexChemistry.initialize_chemistry, fill_atmosphere, AutoChemistry.compute_mu_profile, '
               'determine_active_inactive (as flags), ConstantGas, TwoPointGas, ArrayGas, PowerGas, TwoLayerGas'],
     assumptions=['trace totals are generated either exactly representable or at least 1e-9 away from one (the '
@@ -38,6 +40,15 @@ def setup_active():
     Mem = tmodel.mem_opacity_class()
     for g in ACTIVE:
         OpacityCache().add_opacity(Mem(g, [100.0, 1000.0], [1.0, 1e6], np.ones((2, 2, 2)) * 1e-24, [1000.0, 2000.0]))
+
+
+# the coefficient table of the power-law profiles (alpha, beta, gamma, surface abundance), as published with the
+# parametrisation and tabulated in PowerGas.check_known — replicated here, the selection logic is what is compared
+POWER_TABLE = {
+    'H2': (1., 2.41e4, 6.5, 10 ** -0.1), 'H2O': (2., 4.83e4, 15.9, 10 ** -3.3), 'TiO': (1.6, 5.94e4, 23.0, 10 ** -7.1),
+    'VO': (1.5, 5.4e4, 23.8, 10 ** -9.2), 'H-': (0.6, -0.14e4, 7.7, 10 ** -8.3), 'Na': (0.6, 1.89e4, 12.2, 10 ** -5.5),
+    'K': (0.6, 1.28e4, 12.7, 10 ** -7.1),
+}
 
 
 def gen_gas(rng, name, scale):
@@ -60,6 +71,15 @@ def gen_gas(rng, name, scale):
         arr = np.array([scale * 10 ** rng.uniform(-6, 0) for _ in range(rng.choice([2, 3, 5, 8]))])
         return kind, ArrayGas(name, mix_ratio_array=arr), dict(arr=arr)
     prm = dict(ms=hi, al=rng.uniform(0.2, 3), be=rng.uniform(-5e3, 5e3), ga=rng.uniform(-3, 12))
+    if rng.random() < 0.4:
+        # a tabulated profile: the coefficients left unset come from the table of the profile type
+        pt = rng.choice(sorted(POWER_TABLE))
+        given = {k: (prm[k] if rng.random() < 0.5 else None) for k in ('ms', 'al', 'be', 'ga')}
+        a_, b_, g_, A_ = POWER_TABLE[pt]
+        eff = dict(ms=A_ if given['ms'] is None else given['ms'], al=a_ if given['al'] is None else given['al'],
+                   be=b_ if given['be'] is None else given['be'], ga=g_ if given['ga'] is None else given['ga'])
+        return kind, PowerGas(name, profile_type=pt, mix_ratio_surface=given['ms'], alpha=given['al'],
+                              beta=given['be'], gamma=given['ga']), dict(eff, profile_type=pt, given=given)
     return kind, PowerGas(name, profile_type='auto', mix_ratio_surface=prm['ms'], alpha=prm['al'], beta=prm['be'],
                           gamma=prm['ga']), prm
 
